@@ -685,6 +685,92 @@ def run_case(W, case, driver, res):
     return rec
 
 
+def _run_child(W, argv, cwd, tmpdir, fakebin, close_stdout_when=None):
+    """`bandit-baseline argv` as a real child process with the fake `bandit` on PATH.  close_stdout_when: a file whose appearance tells that the tool is inside
+    its first bandit run (parent commit checked out) — the harness then closes its end of the tool's stdout, like `| head -3` does."""
+    env = dict(W.genv, PATH=fakebin + os.pathsep + "/usr/bin" + os.pathsep + "/bin", TMPDIR=tmpdir, C20_STATE=fakebin, PYTHONPATH=os.environ.get("PYTHONPATH", ""))
+    code = "import sys\nfrom bandit.cli import baseline\nbaseline.main()\n"
+    p = subprocess.Popen(["/venv/bin/python", "-c", code] + list(argv), cwd=cwd, env=env, stdout=subprocess.PIPE, stderr=subprocess.PIPE)
+    if close_stdout_when:
+        t0 = time.time()
+        while not os.path.exists(close_stdout_when) and p.poll() is None and time.time() - t0 < 30:
+            time.sleep(0.01)
+        p.stdout.close()
+    try:
+        p.wait(timeout=90)
+    except subprocess.TimeoutExpired:
+        p.kill()
+        p.wait()
+    try:
+        err = p.stderr.read().decode("utf-8", "replace")
+    except Exception:
+        err = ""
+    return p.returncode, err
+
+
+def histories_and_pipes(res, W):
+    """(a) several runs of the tool in one repository, with commits in between: what an earlier run left behind (a refused one, too) must not make a later run
+    move anything (seeded change C20-m14 kept a crash-recovery note that survived a refused run and hard-reset the branch on the next run);
+    (b) the reader of the tool's output goes away while the parent commit is checked out (`bandit-baseline … | head -3`): the repository is still put back
+    (seeded change C20-m13 reset SIGPIPE to the default action: the process died on its next write, without running the clean-up)."""
+    def fake(nap_at=None):
+        d = W.fresh_dir("bin")
+        with open(os.path.join(d, "bandit"), "w") as f:
+            f.write(FAKE_BANDIT.replace('  sleep) : > "$C20_STATE/ready$n"; exec sleep 30;;', '  sleep) : > "$C20_STATE/ready$n"; exec sleep 30;;\n  nap) : > "$C20_STATE/ready$n"; sleep 1.5; for i in 1 2 3 4 5 6 7 8; do echo "fake bandit line $i"; done; if [ -n "$out" ]; then echo \'{"results": []}\' > "$out"; fi; exit 0;;'))
+        os.chmod(os.path.join(d, "bandit"), 0o755)
+        for i in (1, 2, 3, 4):
+            with open(os.path.join(d, f"beh{i}"), "w") as f:
+                f.write("nap" if nap_at == i else "exit:0")
+        return d
+    # ---- (a) run histories
+    d = W.fresh_dir("hist")
+    W.git(d, "init", "-q", "-b", "main")
+    W._w(d, "a.py", "import os\n")
+    W.git(d, "add", "-A"); W.git(d, "commit", "-q", "-m", "root")
+    tmpdir = W.fresh_dir("tmp")
+    steps = [("run", "root-only commit: must refuse"), ("commit", "b.py"), ("run", "two commits"), ("dirty", None), ("run", "dirty tree: must refuse"), ("clean", None),
+             ("commit", "c.py"), ("run", "three commits"), ("run", "again")]
+    hist = []
+    for op, arg in steps:
+        if op == "commit":
+            W._w(d, arg, "x = 1\n"); W.git(d, "add", "-A"); W.git(d, "commit", "-q", "-m", arg)
+        elif op == "dirty":
+            W._w(d, "a.py", "import os\nimport sys\n")
+        elif op == "clean":
+            W.git(d, "checkout", "-q", "--", "a.py")
+        else:
+            fb = fake()
+            for f in os.listdir(fb):
+                if f == "count":
+                    os.remove(os.path.join(fb, f))
+            before = snapshot(W, d, tmpdir)
+            rc, err = _run_child(W, ["a.py"], d, tmpdir, fb)
+            after = snapshot(W, d, tmpdir)
+            hist.append([arg, rc])
+            res.case(("run-history", len(hist)), True)
+            res.count("run-history")
+            diffs = restoration_diffs(before, after, "bandit_baseline_result.txt", False)
+            if diffs:
+                res.violation("a run of the tool did not leave the repository as it found it (after earlier runs in the same repository)",
+                              {"history (what, exit status)": hist, "this_run": arg, "diffs": diffs, "stderr_tail": err[-400:]})
+                break
+    # ---- (b) the output reader goes away during the first bandit run
+    for head_mode in ("branch", "detached"):
+        case = base_case(head_mode=head_mode)
+        repo_dir, cwd, report = build_repo(W, case)
+        tmpdir = W.fresh_dir("tmp")
+        fb = fake(nap_at=1)
+        before = snapshot(W, repo_dir, tmpdir)
+        rc, err = _run_child(W, ["a.py"], cwd, tmpdir, fb, close_stdout_when=os.path.join(fb, "ready1"))
+        after = snapshot(W, repo_dir, tmpdir)
+        res.case(("reader-gone", head_mode), True)
+        res.count("reader-gone")
+        diffs = restoration_diffs(before, after, os.path.relpath(report, repo_dir), False)
+        if diffs:
+            res.violation("the repository was not restored after the reader of the tool's output went away while the parent commit was checked out",
+                          {"head_mode": head_mode, "tool_exit_status": rc, "diffs": diffs, "stderr_tail": err[-400:]})
+
+
 # ----------------------------------------------------------------------------- enumeration
 def base_case(**kw):
     c = {"mech": "patch", "head_mode": "branch", "fmt": None,
@@ -838,6 +924,7 @@ def run(res, ctx):
             if tag not in sampled and len(res.samples) < 6:
                 sampled.add(tag)
                 res.samples.append({k2: rec[k2] for k2 in ("case", "argv", "observed", "verdict") if k2 in rec})
+        histories_and_pipes(res, W)
         res.exhaustive = True
         res.extra["cases"] = len(seen)
         res.extra["commits"] = W.ids
